@@ -344,6 +344,51 @@ func c05MutateValue(r *kit.Rand, v any, refs []kit.XRef, budget *int) any {
 	}
 }
 
+var c05Tokens = []string{"R", "R", "obj", "endobj", "stream", "endstream", "[", "]", "<<", ">>", "(", ")", "<", ">", "/", "null", "true",
+	"0", "1", "65535", "-1", "99999999999", "0 R", "1 0 R", "/Kids", "/Length", "%", "{", "}"}
+
+// c05TokenEdit duplicates, deletes, swaps or replaces white-space separated tokens.
+func c05TokenEdit(r *kit.Rand, text []byte) []byte {
+	toks := bytes.Fields(text)
+	if len(toks) == 0 {
+		return []byte(kit.Pick(r, c05Tokens))
+	}
+	for k := 1 + r.Intn(3); k > 0; k-- {
+		i := r.Intn(len(toks))
+		if r.Chance(1, 3) {
+			// prefer structural tokens: references, brackets, keywords
+			var cand []int
+			for j, t := range toks {
+				switch string(t) {
+				case "R", "[", "]", "<<", ">>", "obj", "endobj":
+					cand = append(cand, j)
+				}
+			}
+			if len(cand) > 0 {
+				i = kit.Pick(r, cand)
+			}
+		}
+		switch r.Intn(5) {
+		case 0: // duplicate
+			toks = append(toks[:i+1], toks[i:]...)
+		case 1: // delete
+			toks = append(toks[:i], toks[i+1:]...)
+			if len(toks) == 0 {
+				toks = [][]byte{[]byte("null")}
+			}
+		case 2: // swap with the neighbour
+			if i+1 < len(toks) {
+				toks[i], toks[i+1] = toks[i+1], toks[i]
+			}
+		case 3: // replace
+			toks[i] = []byte(kit.Pick(r, c05Tokens))
+		default: // insert
+			toks = append(toks[:i], append([][]byte{[]byte(kit.Pick(r, c05Tokens))}, toks[i:]...)...)
+		}
+	}
+	return bytes.Join(toks, []byte(" "))
+}
+
 // c05StructMutate parses a Writer-produced file with the independent parser,
 // mutates the object model and re-serialises it with a correct xref, so that
 // the mutation is reached.
@@ -388,7 +433,18 @@ func c05StructMutate(r *kit.Rand, data []byte) ([]byte, string, bool) {
 	for k := 1 + r.Intn(3); k > 0; k-- {
 		n := nums[r.Intn(len(nums))]
 		a := rev.Actions[n]
-		switch r.Intn(5) {
+		switch r.Intn(6) {
+		case 5: // token-level edit inside one object, written verbatim with a correct xref entry
+			if _, isStream := a.Value.(*kit.XStream); isStream {
+				continue
+			}
+			if _, isRaw := a.Value.(kit.XRaw); isRaw {
+				continue
+			}
+			var buf bytes.Buffer
+			(&kit.XStyle{Rng: r, Plain: true}).Render(&buf, a.Value)
+			rev.Actions[n] = kit.XAction{Gen: a.Gen, Value: kit.XRaw(c05TokenEdit(r, buf.Bytes()))}
+			kinds = append(kinds, "token-edit")
 		case 0: // swap two objects
 			m := nums[r.Intn(len(nums))]
 			b := rev.Actions[m]
@@ -509,6 +565,59 @@ func TestVerifC05(t *testing.T) {
 			c.Sample(map[string]any{"crafted": what, "bytes": len(data)})
 		}
 	})
+
+	// every token sequence up to a length over a small alphabet, as the body of one
+	// indirect object (bare and inside an array) of an otherwise valid file: the object
+	// scanner must cope with any arrangement of references, brackets and keywords
+	if os.Getenv("VERIF_C05_SMALL") == "" {
+		alpha := []string{"0", "5", "R", "[", "]", "<<", ">>", "/K", "(s)", "null", "-1", "obj"}
+		maxLen := r.N(4, 5)
+		total := 0
+		for l, p := 1, len(alpha); l <= maxLen; l, p = l+1, p*len(alpha) {
+			total += p
+		}
+		r.Exhaustive("token-soup")
+		r.Phase("token-soup", total, func(c *kit.Case) {
+			idx := c.Index
+			l, p := 1, len(alpha)
+			for idx >= p {
+				idx -= p
+				l++
+				p *= len(alpha)
+			}
+			toks := make([]string, l)
+			for i := l - 1; i >= 0; i-- {
+				toks[i] = alpha[idx%len(alpha)]
+				idx /= len(alpha)
+			}
+			soup := strings.Join(toks, " ")
+			for _, body := range []string{soup, "[ " + soup + " ]", "[ 1 " + soup + " R ]", "<< /A " + soup + " >>"} {
+				var b bytes.Buffer
+				b.WriteString("%PDF-1.7\n1 0 obj\n<</Type/Catalog/Pages 2 0 R>>\nendobj\n2 0 obj\n<</Type/Pages/Kids[]/Count 0>>\nendobj\n")
+				o3 := b.Len()
+				fmt.Fprintf(&b, "3 0 obj\n%s\nendobj\n", body)
+				x := b.Len()
+				fmt.Fprintf(&b, "xref\n0 4\n0000000000 65535 f \n0000000009 00000 n \n0000000058 00000 n \n%010d 00000 n \ntrailer\n<</Size 4/Root 1 0 R>>\nstartxref\n%d\n%%%%EOF\n", o3, x)
+				data := b.Bytes()
+				func() {
+					defer func() {
+						if e := recover(); e != nil {
+							c.Violationf("panic/token-soup", "object body %q: panic: %v", body, e)
+						}
+					}()
+					if rd, err := pdf.NewReader(bytes.NewReader(data), int64(len(data)), nil); err == nil {
+						rd.Get(pdf.NewReference(3, 0), true)
+						pdf.Resolve(rd, pdf.NewReference(3, 0))
+					}
+					pdf.SequentialScan(bytes.NewReader(data), int64(len(data)))
+				}()
+				c.R.Count("token_sequences_scanned", 1)
+			}
+			if l == maxLen {
+				c.Distinct(soup)
+			}
+		})
+	}
 
 	r.Phase("mutations", n, func(c *kit.Case) {
 		i := c.Rng.Intn(len(seeds))
